@@ -27,6 +27,29 @@ use std::sync::{Arc, Mutex};
 use std::task::{Context, Poll, Wake, Waker};
 
 // ------------------------------------------------------------------------------------------------
+// once an execution has recorded a violation the crate's memory management cannot be trusted any more
+// (a block may be freed while referenced): from then on nothing is really deallocated on this thread, so
+// that the rest of the execution and its teardown cannot corrupt the heap of the checker itself
+
+struct LeakOnPoison;
+thread_local! {
+    static POISONED: std::cell::Cell<bool> = const { std::cell::Cell::new(false) };
+}
+unsafe impl std::alloc::GlobalAlloc for LeakOnPoison {
+    unsafe fn alloc(&self, l: std::alloc::Layout) -> *mut u8 {
+        unsafe { std::alloc::System.alloc(l) }
+    }
+    unsafe fn dealloc(&self, p: *mut u8, l: std::alloc::Layout) {
+        if POISONED.try_with(|c| c.get()).unwrap_or(false) {
+            return;
+        }
+        unsafe { std::alloc::System.dealloc(p, l) }
+    }
+}
+#[global_allocator]
+static GLOBAL: LeakOnPoison = LeakOnPoison;
+
+// ------------------------------------------------------------------------------------------------
 // scenario
 
 #[derive(Clone, Copy, Debug, PartialEq, Eq, Serialize, Deserialize)]
@@ -97,6 +120,7 @@ struct Block {
     base: usize,
     size: usize,
     live_clones: i64,
+    list_alive: bool,
     released: bool,
 }
 
@@ -108,6 +132,12 @@ struct Ledger {
     switches_in_crate: u64,
     preemptions_in_crate: u64,
     vt_calls_offthread: u64,
+    /// a bounded subject owns exactly one block for its whole life: while this is set no release is legal
+    bounded_coll_alive: bool,
+    /// unbounded subjects: blocks of the groups the collection holds right now (refreshed after every call)
+    live_groups: Vec<usize>,
+    /// the polling thread is inside a call into the collection (groups may legitimately be discarded)
+    in_coll_call: bool,
 }
 
 thread_local! {
@@ -118,6 +148,7 @@ thread_local! {
 }
 
 fn violate(prop: u32, sig: &str, msg: String) {
+    POISONED.with(|c| c.set(true));
     LEDGER.with(|l| {
         let mut l = l.borrow_mut();
         if l.violations.len() < 16 {
@@ -161,21 +192,47 @@ fn probe_cb(p: Probe) {
                     base,
                     size,
                     live_clones: 0,
+                    list_alive: true,
                     released: false,
                 });
                 false
             }
+            Probe::ListDrop { base } => match l.blocks.iter().rposition(|b| b.base == base && !b.released) {
+                Some(i) => {
+                    l.blocks[i].list_alive = false;
+                    false
+                }
+                None => {
+                    l.violations.push((3, "C03/use-after-release".into(), format!("WakerList of released/unknown block {base:#x} dropped")));
+                    true
+                }
+            },
             Probe::BlockRelease { base } => match l.blocks.iter().rposition(|b| b.base == base) {
                 Some(i) => {
                     if l.blocks[i].released {
                         l.violations.push((3, "C03/double-release".into(), format!("block {base:#x} released twice")));
                         true
-                    } else if l.blocks[i].live_clones != 0 {
+                    } else if !l.in_coll_call && l.live_groups.contains(&base) {
+                        l.violations.push((
+                            3,
+                            "C03/released-while-group-alive".into(),
+                            format!("block {base:#x} released while the collection still holds its group and is not being polled or dropped"),
+                        ));
+                        true
+                    } else if l.bounded_coll_alive {
+                        l.violations.push((
+                            3,
+                            "C03/released-while-collection-alive".into(),
+                            format!("block {base:#x} released while the bounded collection that owns it is still alive"),
+                        ));
+                        true
+                    } else if l.blocks[i].live_clones != 0 || l.blocks[i].list_alive {
                         let lc = l.blocks[i].live_clones;
+                        let la = l.blocks[i].list_alive;
                         l.violations.push((
                             3,
                             "C03/released-while-referenced".into(),
-                            format!("block {base:#x} released while {lc} waker clones are outstanding"),
+                            format!("block {base:#x} released while {lc} waker clones are outstanding and its collection/group holds its reference = {la}"),
                         ));
                         true
                     } else {
@@ -214,8 +271,11 @@ fn probe_cb(p: Probe) {
             }
         }
     });
-    if stop && !std::thread::panicking() {
-        panic!("VERIF_STOP");
+    if stop {
+        POISONED.with(|c| c.set(true));
+        if !std::thread::panicking() {
+            panic!("VERIF_STOP");
+        }
     }
 }
 
@@ -234,6 +294,22 @@ struct Shared {
     task_wakes: [AtomicU32; 2],
     threads_done: AtomicUsize,
     polled_after_done: AtomicBool,
+}
+
+impl Drop for Shared {
+    fn drop(&mut self) {
+        // after a violation the reference count of the waker block cannot be trusted: do not run any more
+        // crate code on it (the crate aborts the process on a count it considers impossible)
+        if POISONED.try_with(|c| c.get()).unwrap_or(false) {
+            for m in self.stash.iter_mut() {
+                if let Ok(v) = m.get_mut() {
+                    for w in v.drain(..) {
+                        std::mem::forget(w);
+                    }
+                }
+            }
+        }
+    }
 }
 
 impl Shared {
@@ -363,7 +439,26 @@ enum Got {
 }
 
 impl Coll {
+    fn group_blocks(&self) -> Vec<usize> {
+        match self {
+            Coll::UU(c) => c.verif_groups().into_iter().map(|g| g.2).collect(),
+            Coll::OU(c) => c.verif_groups().into_iter().map(|g| g.2).collect(),
+            Coll::MU(c) => c.verif_groups().into_iter().map(|g| g.2).collect(),
+            _ => Vec::new(),
+        }
+    }
     fn poll(&mut self, cx: &mut Context<'_>) -> Got {
+        LEDGER.with(|l| l.borrow_mut().in_coll_call = true);
+        let g = self.poll_inner(cx);
+        let blocks = self.group_blocks();
+        LEDGER.with(|l| {
+            let mut l = l.borrow_mut();
+            l.in_coll_call = false;
+            l.live_groups = blocks;
+        });
+        g
+    }
+    fn poll_inner(&mut self, cx: &mut Context<'_>) -> Got {
         fn f(p: Poll<Option<usize>>) -> Got {
             match p {
                 Poll::Pending => Got::Pending,
@@ -566,6 +661,13 @@ fn execution(sc: &Scenario) {
         Subj::MU => Coll::MU((0..n).map(ms).collect()),
         Subj::JA => Coll::JA(join_all((0..n).map(mk))),
     });
+    let bounded = matches!(sc.subj, Subj::UB | Subj::OB | Subj::MB | Subj::JA);
+    let gb = coll.as_ref().unwrap().group_blocks();
+    LEDGER.with(|l| {
+        let mut l = l.borrow_mut();
+        l.bounded_coll_alive = bounded;
+        l.live_groups = gb;
+    });
     let mut held = n;
     let mut yielded: Vec<bool> = vec![false; total];
     let mut items: Vec<u32> = vec![0; total];
@@ -575,7 +677,7 @@ fn execution(sc: &Scenario) {
     let mut resolved = false;
     let first_pending;
 
-    let mut handle = |g: Got, yielded: &mut Vec<bool>, items: &mut Vec<u32>, order: &mut Vec<usize>, held: &mut usize, resolved: &mut bool, sh: &Shared| match g {
+    let handle = |g: Got, yielded: &mut Vec<bool>, items: &mut Vec<u32>, order: &mut Vec<usize>, held: &mut usize, resolved: &mut bool, sh: &Shared| match g {
         Got::Fut(i) => {
             if i >= yielded.len() || yielded[i] || sh.ready[i].load(Ordering::SeqCst) == 0 {
                 fail(2, "C02/bad-item", format!("item of child {i}: duplicate or not completed"));
@@ -647,6 +749,7 @@ fn execution(sc: &Scenario) {
             POp::Push => {
                 let i = next_push;
                 next_push += 1;
+                LEDGER.with(|l| l.borrow_mut().in_coll_call = true);
                 let ok = match coll.as_mut().unwrap() {
                     Coll::UB(c) => c.try_push(mk(i)).is_ok(),
                     Coll::UU(c) => {
@@ -665,6 +768,12 @@ fn execution(sc: &Scenario) {
                     }
                     Coll::JA(_) => false,
                 };
+                let gb = coll.as_ref().unwrap().group_blocks();
+                LEDGER.with(|l| {
+                    let mut l = l.borrow_mut();
+                    l.in_coll_call = false;
+                    l.live_groups = gb;
+                });
                 if ok {
                     held += 1;
                     // a push after a Pending poll is not notified; the executor below polls again anyway
@@ -676,6 +785,11 @@ fn execution(sc: &Scenario) {
     if sc.drop_early {
         // the collection dies while other threads may still be using its wakers (C03)
         CUR.with(|c| c.set(0));
+        LEDGER.with(|l| {
+            let mut l = l.borrow_mut();
+            l.bounded_coll_alive = false;
+            l.live_groups.clear();
+        });
         drop(coll.take());
         CUR.with(|c| c.set(0));
     }
@@ -780,6 +894,11 @@ fn execution(sc: &Scenario) {
         fail(5, "C05/polled-after-completion", "a finished child was polled again".into());
     }
     // everything dies; the block must be released exactly once, when the last owner goes
+    LEDGER.with(|l| {
+        let mut l = l.borrow_mut();
+        l.bounded_coll_alive = false;
+        l.live_groups.clear();
+    });
     drop(coll.take());
     CUR.with(|c| c.set(0));
     for i in 0..total {
@@ -832,6 +951,8 @@ fn run_one(sc: &Scenario, sched_seed: u64) -> (Vec<(u32, String, String)>, ExecS
         }
     }));
     IN_EXEC.with(|c| c.set(false));
+    // POISONED is deliberately never cleared on this OS thread: shuttle may tear down the abandoned
+    // continuations of a failed execution later, and they must not free anything either
     let v = LEDGER.with(|l| std::mem::take(&mut l.borrow_mut().violations));
     let st = LAST_STATS.with(|s| s.borrow().clone());
     match r {
